@@ -202,7 +202,7 @@ func runC03(c *vh.Ctx) {
 	enumerate(2, 1)
 	enumerate(3, 1)
 	if c.Thorough() {
-		enumerate(4, 1)
+		enumerate(4, 7) // every 7th graph-with-presence of the 2^16 x 2^4 (the full enumeration takes ~45 min)
 	} else {
 		enumerate(4, 211)
 	}
